@@ -154,6 +154,7 @@ let verdict_names (v : n list) =
     | 6 -> "accepted-out-of-order"
     | 7 -> "accepted-from-other-context"
     | 8 -> "failed-complete-left-unrollbackable"
+    | 9 -> "staged-change-orphaned-by-context-switch"
     | k -> "clause" ^ string_of_int k) v)
 
 let spec_case (case_line : string) (impl_line : string) =
